@@ -1,6 +1,6 @@
 CONSTANTS
-  N = 2
-  MaxTasks = 2
+  N = 1
+  MaxTasks = 1
   Dev = {"NoRespawn"}
 SPECIFICATION Spec
 CHECK_DEADLOCK FALSE
